@@ -159,8 +159,13 @@ def run_store(case, V, hooks, distinct):
                 V.append({"sig": "store:inline-at-or-above-threshold", "what": f"size {len(raw)} >= {thr} but kept inline", "witness": wit})
             if not is_ref and ref != raw:
                 V.append({"sig": "store:inline-not-serialized-form", "what": "inline value differs from the serializer output", "witness": wit})
-            ref2 = cds.serialize(copy.deepcopy(original))
-            if ref2 != ref:
+            twin = copy.deepcopy(original)
+            ref2 = cds.serialize(twin)
+            if ser.serialize(twin) != raw:
+                # content addressing is over the serialized content: an equal value whose serialization is not canonical (e.g. a set whose
+                # iteration order changed in the copy) legitimately gets another key
+                hooks["noncanonical_serializations_skipped"] += 1
+            elif ref2 != ref:
                 V.append({"sig": "store:equal-content-different-reference", "what": f"{ref[:80]} vs {ref2[:80]}", "witness": wit})
             if cds.is_reference(off.client_data_store.serialize(original)):
                 V.append({"sig": "store:disabled-store-externalised", "what": "disable_client_data_store=True still externalised", "witness": wit})
